@@ -474,3 +474,81 @@ func runC14SplitterUse(c *Ctx) {
 	c.Sites += nSplit + nOK
 	c.Check(len(bad) == 0 && nOK >= 4, "C14-USE", "valid", "rule-lists", token.NoPos, fmt.Sprintf("%d rule lists split by ValidNamesSplit; %d other Split calls, none on a rule list", nOK, nSplit), uniqJoin(append(bad, fmt.Sprintf("%d rule-list splits through ValidNamesSplit found (expected the four walkers and the missing-key reporter)", nOK)), 3))
 }
+
+// C14-VERBATIM: the key and the value returned by the parser are substrings of the rule text,
+// cut at the delimiters and otherwise untouched (no trimming, case folding, replacing): every
+// value stored into / returned as result 0 and 1 is a slice of the parameter (or of a slice of
+// it) or the empty constant. A rule option such as the separator " " of `date= ` or the prefix
+// " a" of `prefix= a` must reach the rule function byte for byte.
+func runC14Verbatim(c *Ctx) {
+	p := c.P
+	c.Rule("C14-VERBATIM", "ParseValidNameKV returns key and value as untouched substrings of the rule text", 1)
+	fn := p.Func("valid", "ParseValidNameKV")
+	if fn == nil {
+		c.Unk("C14-VERBATIM", "valid.ParseValidNameKV", "results", token.NoPos, "parser not found")
+		return
+	}
+	c.Funcs[fnName(fn)] = true
+	text := fn.Params[0]
+	var bad []string
+	n := 0
+	var isSub func(v ssa.Value, d int) string
+	isSub = func(v ssa.Value, d int) string {
+		if d > 8 {
+			return "too deep"
+		}
+		switch x := v.(type) {
+		case *ssa.Parameter:
+			if x == text {
+				return ""
+			}
+			return "another parameter"
+		case *ssa.Const:
+			if s, ok := constString(x); ok && s == "" {
+				return ""
+			}
+			return "a constant"
+		case *ssa.Slice:
+			return isSub(x.X, d+1)
+		case *ssa.Phi:
+			for _, e := range x.Edges {
+				if w := isSub(e, d+1); w != "" {
+					return w
+				}
+			}
+			return ""
+		case *ssa.UnOp:
+			// load of a result/local cell: every store into it
+			if al, ok := x.X.(*ssa.Alloc); ok {
+				for _, r := range refs(al) {
+					if st, ok := r.(*ssa.Store); ok && st.Addr == al {
+						if w := isSub(st.Val, d+1); w != "" {
+							return w
+						}
+					}
+				}
+				return ""
+			}
+			return "a load"
+		case *ssa.Call:
+			return "the result of " + calleeName(&x.Call)
+		case *ssa.BinOp:
+			return "a concatenation"
+		}
+		return fmt.Sprintf("a %T", v)
+	}
+	for _, b := range fn.Blocks {
+		ret, ok := b.Instrs[len(b.Instrs)-1].(*ssa.Return)
+		if !ok || len(ret.Results) != 3 {
+			continue
+		}
+		for i, nm := range []string{"key", "value"} {
+			n++
+			c.Sites++
+			if w := isSub(ret.Results[i], 0); w != "" {
+				bad = append(bad, fmt.Sprintf("the %s returned at %s is %s, not an untouched substring of the rule text", nm, p.Pos(ret.Pos()), w))
+			}
+		}
+	}
+	c.Check(len(bad) == 0 && n > 0, "C14-VERBATIM", fnName(fn), "results", fn.Pos(), fmt.Sprintf("%d returned key/value results are substrings of the input", n), uniqJoin(bad, 3))
+}
